@@ -166,6 +166,28 @@ def run(F, rep):
     if n_c < 1:
         raise AnalysisBroken('no write to AnalyserImpl::mStandardUnits found')
 
+    # ------------------------------------------------------------------ S: no state in static storage
+    rep.rule('C12.S1', 'no object in static storage can carry state from one call to the next: every function-local static and every namespace-scope variable of src is const '
+                       '(a static service object, cache or flag makes the result of a call depend on what the process did before)')
+    STATIC_OK = {'XmlDoc::parseMathML|mathMLDTD': 'the decompressed MathML DTD: filled once from a constant table (decompressMathMLDTD() takes no argument), its content does not depend on any model or call'}
+    n_s = 0
+    for f in F.funcs.values():
+        for v in f.walk():
+            if v.get('k') == 'Var' and v.get('static'):
+                n_s += 1
+                key = '%s|%s' % (f.short, v['n'])
+                if key in STATIC_OK:
+                    init_calls = [c for c in f.walk() if c.get('k') == 'Call' and c.get('opc') == '=' and c['c'][0].get('k') == 'Ref' and c['c'][0].get('d') == v['d']]
+                    pure = all(len([a for a in (x['c'][1].get('c') or [])]) == 0 for x in init_calls)
+                    rep.check(pure, 'C12.S1', key, f.where(v), 'static %s is assigned from an expression with arguments' % v['n'], STATIC_OK[key])
+                    continue
+                rep.check((v.get('t') or '').startswith('const '), 'C12.S1', key, f.where(v), '%s keeps `static %s %s` between calls: what a call returns depends on the calls made before it in this process' % (f.short, v.get('t'), v['n']), 'const')
+    for g in F.globals.values():
+        n_s += 1
+        rep.check((g.get('t') or '').startswith('const ') or 'constexpr' in (g.get('t') or ''), 'C12.S1', 'global|%s' % g['qname'], '%s:%s' % (g['file'], g.get('line')), 'namespace-scope variable %s (%s) is not const' % (g['qname'], g.get('t')), 'const')
+    if n_s < 40:
+        raise AnalysisBroken('C12.S1: only %d static objects seen (54 confirmed)' % n_s)
+
     # ------------------------------------------------------------------ M
     rep.rule('C12.M1', 'Printer::printModel, Validator::validateModel, Analyser::analyseModel and Generator::*Code call state-changing entity methods only on objects created inside the service (create()/clone())')
     meth = {}
